@@ -145,6 +145,7 @@ def handleE (j : Json) : Except String Json := do
     pure (Json.mkObj [("ok", Json.mkObj [("key", Json.str (String.ofList key)), ("name_const", Json.str (String.ofList (PV.Modules.nameConst key))),
       ("label", Json.str (String.ofList (PV.Modules.mangle key)))])])
   | "core-compare" => do pure (Json.mkObj [("ok", ← PV.DriverRun.coreCompare j)])
+  | "strip-compare" => do pure (Json.mkObj [("ok", ← PV.DriverRun.stripCompare j)])
   | "check-fall" => do pure (Json.mkObj [("ok", ← PV.DriverRun.checkFallCmd j)])
   | "run-regions" => do pure (Json.mkObj [("ok", ← PV.DriverRun.runRegions j)])
   | "check-alloc" => do pure (Json.mkObj [("ok", ← PV.DriverRun.checkAlloc j)])
